@@ -17,12 +17,15 @@ GrpcTimeouts == { <<>>, <<"0", "S">>, <<"0", "0", "0", "n">>, <<"1", "n">>, <<"5
                   \* malformed
                   <<"5">>, <<"5", "X">>, <<"S">>, <<"a", "b", "c", "S">>, <<"+", "5", "S">>, <<"-", "5", "S">>,
                   <<"5", ".", "5", "S">>, <<" ", "5", "S">>, <<"5", " ", "S">>, <<"5", "s">>,
-                  <<"1", "2", "3", "4", "5", "6", "7", "8", "9", "S">>, <<"5", "S", "S">> }
+                  <<"1", "2", "3", "4", "5", "6", "7", "8", "9", "S">>, <<"5", "S", "S">>,
+                  \* more digits than the grammar allows, although the value is small
+                  <<"0", "0", "0", "0", "0", "0", "0", "0", "5", "S">>, <<"0", "0", "0", "0", "0", "0", "0", "0", "0", "n">> }
 ConnectTimeouts == { <<>>, <<"0">>, <<"0", "0", "0", "0", "0", "0", "0", "0", "0", "0">>, <<"1">>, <<"5", "0", "0", "0">>, <<"3", "0", "0", "0", "0", "0">>,
                      <<"9", "9", "9", "9", "9", "9", "9", "9", "9", "9">>,
                      <<"a", "b", "c">>, <<"+", "5", "0", "0", "0">>, <<"-", "5", "0", "0", "0">>,
                      <<"5", "0", "0", "0", "m", "s">>, <<"5", ".", "5">>, <<" ", "5", "0", "0", "0">>,
-                     <<"1", "2", "3", "4", "5", "6", "7", "8", "9", "0", "1">>, <<"0", "x", "1", "0">> }
+                     <<"1", "2", "3", "4", "5", "6", "7", "8", "9", "0", "1">>, <<"0", "x", "1", "0">>,
+                     <<"0", "0", "0", "0", "0", "0", "0", "0", "0", "0", "5">> }
 Mk(k, me, ma, ct, cd, enc, th, to, b, lim) ==
   [kind |-> k, method |-> me, major |-> ma[1], minor |-> ma[2], ctype |-> ct, codecs |-> cd, enc |-> enc, theader |-> th,
    timeout |-> to, body |-> b, limit |-> lim]
